@@ -198,6 +198,13 @@ var coverDocs = []string{
 	"<!-- c -->\n\n<?php ?>\n\n<![CDATA[x]]>\n\n<script>\nx\n</script>\n\ntext <!-- i --> <?p?> <!D> <![CDATA[y]]>\n",
 	"1. a\n\n   b\n2. c\n   - d\n\n     e\n* * *\n+ f\n",
 	"! bang ! ![ ]( ) !! a!b\n",
+	// state that a shared or pooled object could carry from one call into a concurrent one: an unclosed typographic
+	// quote / a lone closing quote, attribute values that need unescaping or number formatting, multi-line code spans
+	"\"foo 'bar\n",
+	"foo\" bar' baz\n",
+	"# t {title=\"say \\\"hi\\\" to everybody\" data-n=12}\n\n## u {#u .c hidden=true}\n",
+	"# v {title=\"C:\\\\temp\\\\new folder (2)\" tabindex=3}\n",
+	"> `foo\n> bar` x\n\n- `a\r\n  b`\n",
 }
 
 func TestKnown(t *testing.T)  { kit.RunKnown(t) }
